@@ -252,6 +252,11 @@ def ts_zoo(rng, ids, style):
         # a method that reads and writes but is exempt as a fluent interface: it ends with `return this;`
         lines = [f"class Builder{i} {{", "  private parts: string[] = [];", "  add(source: Source): this {", "    const piece = source.fetch();", "    this.parts.push(piece);",
                  "    return this;", "  }", "}"]
+    elif style == "member_names":
+        # members that are not named by a plain identifier, class forms other than a plain declaration
+        lines = [f"abstract class Shape{i} {{", "  #secret = 1;", "  *[Symbol.iterator]() { yield this.#secret; }", "  'to-json'() { return '{}'; }", "  42() { return 42; }",
+                 "  #hidden() { return this.#secret; }", "  static [`make${1}`]() { return null; }", "  abstract area(): number;", "}",
+                 f"const Anon{i} = class {{", "  get [Symbol.toStringTag]() { return 'Anon'; }", "};"]
     elif style == "async":
         lines = [f"async function load{i}(api?: Api): Promise<string | null> {{", "  const value = (await api?.get?.('key')) ?? null;", "  const label = `got ${value ?? 'nothing'} at ${Date.now()}`;",
                  "  return value === null ? null : label;", "}"]
@@ -274,7 +279,7 @@ def ts_consts(rng, ids, style):
 
 
 TS_UNITS = [(ts_consts, ["plain", "multiline", "multiline", "trailing"]), (ts_nest, ["plain", "multiline", "export"]), (ts_srp, ["plain", "export", "decorated_export"]), (ts_magic, ["plain", "multiline"]), (ts_print, ["plain"]),
-            (ts_filler, ["plain"]), (ts_loc_edge, ["plain"]), (ts_zoo, ["generics", "fluent", "async", "objects"])]
+            (ts_filler, ["plain"]), (ts_loc_edge, ["plain"]), (ts_zoo, ["generics", "fluent", "async", "objects", "member_names"])]
 
 
 # ---------------------------------------------------------------- Rust units
@@ -383,7 +388,7 @@ RS_UNITS = [(rs_nest, ["plain", "multiline", "attr"]), (rs_unwrap, ["plain", "ch
             (rs_zoo, ["traits", "lifetimes", "match", "macros", "tokio"])]
 
 UNITS = {"py": PY_UNITS, "ts": TS_UNITS, "rs": RS_UNITS}
-ZOO = {"py": (py_zoo, ["match", "walrus", "async", "typing", "try"]), "ts": (ts_zoo, ["generics", "fluent", "async", "objects"]), "rs": (rs_zoo, ["traits", "lifetimes", "match", "macros", "tokio"])}
+ZOO = {"py": (py_zoo, ["match", "walrus", "async", "typing", "try"]), "ts": (ts_zoo, ["generics", "fluent", "async", "objects", "member_names"]), "rs": (rs_zoo, ["traits", "lifetimes", "match", "macros", "tokio"])}
 
 
 def zoo_file(lang: str):
